@@ -46,6 +46,7 @@ class Unit:
         self.assumed_contracts = []
         self.trusted_contracts = []
         self.types = []
+        self.degraded = []     # verify-contracts that had to be emitted as assumed (extraction failure)
 
 
 def _process(unit, path, contracts, mode, out, depth=0):
@@ -74,7 +75,17 @@ def _process(unit, path, contracts, mode, out, depth=0):
             if arg not in contracts:
                 raise X.ExtractError(f'unit {unit.name}: no contract named {arg}')
             c = contracts[arg]
-            em = X.emit_function(REPO, c, 'verify' if d == 'verify' else 'assume', unit.fmt_fns)
+            try:
+                em = X.emit_function(REPO, c, 'verify' if d == 'verify' else 'assume', unit.fmt_fns)
+            except X.ExtractError as e:
+                if d != 'verify':
+                    raise
+                # graceful degradation: the function can no longer be brought into the verifier's reach (lost anchor, a rewrite
+                # rule that no longer applies). It is emitted as an ASSUMED contract so that the rest of the unit is still
+                # checked; the driver reports the property as undecided (exit 2) unless another obligation definitely fails.
+                em = X.emit_function(REPO, c, 'assume', unit.fmt_fns)
+                unit.degraded.append({'contract': arg, 'reason': str(e)})
+                d = 'assume'
             g0 = len(out) + 1
             fn = em.fn
             out.append(f'// ---- {d} {arg}: {c.file}:{fn.line_start}-{fn.line_end} sha256={fn.sha256[:16]}')
